@@ -223,6 +223,15 @@ def self_stores(fn: ast.AST, selfname: str = 'self') -> List[ast.AST]:
     return out
 
 
+def _anc(mod: Any, n: ast.AST, stop: Any) -> List[ast.AST]:
+    out = []
+    p = mod.parents.get(n)
+    while p is not None and p is not stop:
+        out.append(p)
+        p = mod.parents.get(p)
+    return out
+
+
 def run(ctx: Any, prog: Program) -> None:
     mt = prog.module('math')
     ctx.not_decided += ['"parses back within 5e-7" (an arithmetic consequence of 6 decimals, not a code-shape fact)',
@@ -320,7 +329,38 @@ def run(ctx: Any, prog: Program) -> None:
         for n, f in mt.methods(cname).items():
             for c in walk_no_nested(f):
                 if isinstance(c, ast.Call) and dotted(c.func) in ('setattr', 'object.__setattr__'):
-                    ctx.check('C05.G1', False, mt, c, 'angle field written through setattr: normalisation cannot be established', func=f'{cname}.{n}')
+                    # what is stored: follow the value through its definitions in this function.  One `% 360.0` is not enough (a tiny negative
+                    # float wraps to exactly 360.0); two are; a component read off another angle is in range already; anything else is not
+                    # decided here
+                    val_ = c.args[2] if len(c.args) == 3 else None
+                    one_mod_ = dbl_mod_ = from_ang_ = other_ = False
+                    if isinstance(val_, ast.Name):
+                        for d_ in walk_no_nested(f):
+                            if isinstance(d_, ast.AugAssign) and dotted(d_.target) == val_.id:
+                                if isinstance(d_.op, ast.Mod) and isinstance(d_.value, ast.Constant) and float(d_.value.value) == 360.0:
+                                    one_mod_ = True
+                                else:
+                                    other_ = True
+                            elif isinstance(d_, ast.Assign) and any(dotted(t) == val_.id for t in d_.targets):
+                                v2 = d_.value
+                                if isinstance(v2, ast.BinOp) and isinstance(v2.op, ast.Mod) and isinstance(v2.left, ast.BinOp) and isinstance(v2.left.op, ast.Mod):
+                                    dbl_mod_ = True
+                                elif isinstance(v2, ast.Call) and dotted(v2.func) == 'getattr' and v2.args and any(isinstance(g, ast.Call) and dotted(g.func) == 'isinstance' and len(g.args) == 2 and dotted(g.args[0]) == dotted(v2.args[0])
+                                                                                                     and 'Angle' in U(g.args[1]) for a_ in _anc(mt, d_, f) if isinstance(a_, ast.If) for g in ast.walk(a_.test)):
+                                    from_ang_ = True
+                                elif isinstance(v2, ast.Call) and dotted(v2.func) in ('_coerce_float', 'float'):
+                                    pass          # the raw number: what happens to it next decides
+                                else:
+                                    other_ = True
+                    else:
+                        other_ = True
+                    if one_mod_ and not other_:
+                        ctx.check('C05.G1', False, mt, c, f'`{U(c)[:60]}` stores a value that went through a single `% 360.0`: for a tiny negative float (-1e-14, 0.3 - (0.1 + 0.2)) that is exactly 360.0, outside [0, 360)',
+                                  func=f'{cname}.{n}', text=f'{cname}.{n}: setattr value normalised')
+                    elif (dbl_mod_ or from_ang_) and not other_ and not one_mod_:
+                        ctx.check('C05.G1', True, mt, c, 'normalised', func=f'{cname}.{n}', text=f'{cname}.{n}: setattr value normalised')
+                    else:
+                        ctx.shape('C05.G1', False, mt, c, f'angle field written through `{U(c)[:60]}`: whether the value is normalised is not established', func=f'{cname}.{n}', text=f'{cname}.{n}: setattr value normalised')
 
     # ---- G1 (Cython) -----------------------------------------------------------------------------------
     pyx = PyxFile(prog, '_math.pyx')
@@ -677,7 +717,7 @@ def run(ctx: Any, prog: Program) -> None:
     for qual, fns in mt.all_funcs().items():
         for fn in fns:
             decs = [d.func if isinstance(d, ast.Call) else d for d in fn.decorator_list]
-            if not any((dotted(d) or '').split('.')[-1] in MEMO for d in decs):
+            if not any((d.attr if isinstance(d, ast.Attribute) else (d.id if isinstance(d, ast.Name) else '')) in MEMO for d in decs):
                 continue
             n_memo += 1
             params = {a.arg for a in fn.args.posonlyargs + fn.args.args + fn.args.kwonlyargs}
@@ -703,6 +743,22 @@ def run(ctx: Any, prog: Program) -> None:
                 ctx.check('C05.G3', hazard is None, mt, r, f'{qual} is memoised ({", ".join(U(d) for d in fn.decorator_list)}) and returns `{U(hazard) if hazard is not None else ""}`, which can be a mutable '
                           'Vec/Angle/Matrix: every caller with equal arguments gets the same object, so changing one result changes the others', func=qual, text=f'{qual}: memoised result is not a mutable object')
     ctx.check('C05.G3', True, mt, mt.tree, f'{n_memo} memoised function(s) in math.py examined', func='<module>', text='memoised functions examined')
+    # the converting constructors shared by the mutable and the frozen class (`VecBase.from_str`, `AngleBase.from_str`, ...): documented to
+    # return a copy when they are handed an object of the class already.  `return <parameter>` hands a mutable caller-owned object back as
+    # "the result" - unless the path is restricted to the frozen classes
+    n_conv = 0
+    for base_ in ('VecBase', 'AngleBase', 'MatrixBase'):
+        for mname, fn in mt.methods(base_).items():
+            if not any(dotted(d) == 'classmethod' for d in fn.decorator_list):
+                continue
+            params_ = [a.arg for a in fn.args.args[1:]]
+            n_conv += 1
+            for r in [x for x in walk_no_nested(fn) if isinstance(x, ast.Return) and isinstance(x.value, ast.Name) and x.value.id in params_]:
+                tests_ = [a_.test for a_ in _anc(mt, r, fn) if isinstance(a_, ast.If) and any(r is y for b in a_.body for y in ast.walk(b))]
+                frozen_only = any('Frozen' in U(t_) for t_ in tests_)
+                ctx.check('C05.G3', frozen_only, mt, r, f'{base_}.{mname} returns its argument `{r.value.id}` itself' + (f' when `{U(tests_[0])[:50]}`' if tests_ else '') + ': for the mutable class the "converted copy" is the '
+                          'caller\'s own object, and changing one changes the other', func=f'{base_}.{mname}', text=f'{base_}.{mname}: result is not the argument itself')
+    ctx.shape('C05.G3', n_conv >= 3, mt, mt.tree, f'{n_conv} converting classmethods of the base classes examined', func='<module>', text='converting constructors examined')
 
     # ---- G4 -----------------------------------------------------------------------------------------
     ff = mt.func('format_float')
@@ -960,6 +1016,8 @@ def check_format_float(ctx: Any, mod: Any, ff: Any, prog: Any) -> None:
 
 
 MUTANTS = [
+    {'id': 'from_str_returns_its_argument', 'file': 'math.py', 'find': "        pitch, yaw, roll = Py_parse_vec_str(val, pitch, yaw, roll)\n        return cls(pitch, yaw, roll)", 'replace': "        if isinstance(val, cls):\n            return val\n        pitch, yaw, roll = Py_parse_vec_str(val, pitch, yaw, roll)\n        return cls(pitch, yaw, roll)", 'expect': 'C05.G3'},
+    {'id': 'with_axes_single_modulo_setattr', 'file': 'math.py', 'find': "    def join(self, delim: str = ', ') -> str:\n        \"\"\"Return a string with all numbers joined by the passed delimiter.\n\n        This strips off the .0 if no decimal portion exists.\n        \"\"\"\n        return f'{format_float(self._pitch)}", 'replace': "    def _set_axis(self, slot: str, val: float) -> None:\n        value = _coerce_float(val)\n        if not 0.0 <= value < 360.0:\n            value %= 360.0\n        setattr(self, slot, value)\n\n    def join(self, delim: str = ', ') -> str:\n        \"\"\"Return a string with all numbers joined by the passed delimiter.\n\n        This strips off the .0 if no decimal portion exists.\n        \"\"\"\n        return f'{format_float(self._pitch)}", 'expect': 'C05.G1', 'refuse_ok': True},
     {'id': 'format_float_builtin_general_spec', 'file': 'math.py', 'find': "    result = f'{x:.{places}f}'\n", 'replace': "    result = format(x, f'.{places}g')\n", 'expect': 'C05.G4'},
     {'id': 'ok_format_float_builtin_fixed_spec', 'file': 'math.py', 'find': "    result = f'{x:.{places}f}'\n", 'replace': "    spec = f'.{places}f'\n    result = format(x, spec)\n", 'expect': None},
     {'id': 'from_str_memoised', 'file': 'math.py', 'find': "def to_matrix(value: Union['AnyAngle', 'AnyMatrix', 'AnyVec', None]) -> 'Matrix | FrozenMatrix':", 'replace': "@__import__('functools').lru_cache(maxsize=64)\ndef _parse_cached(cls: Any, val: str, x: float, y: float, z: float) -> Any:\n    x, y, z = Py_parse_vec_str(val, x, y, z)\n    return cls(x, y, z)\n\n\ndef to_matrix(value: Union['AnyAngle', 'AnyMatrix', 'AnyVec', None]) -> 'Matrix | FrozenMatrix':", 'extra': [{'file': 'math.py', 'find': "        x, y, z = Py_parse_vec_str(val, x, y, z)\n        return cls(x, y, z)", 'replace': "        if type(val) is str:\n            return _parse_cached(cls, val, x, y, z)\n        x, y, z = Py_parse_vec_str(val, x, y, z)\n        return cls(x, y, z)"}], 'expect': 'C05.G3'},
